@@ -26,6 +26,11 @@ MARK0 = 1000
 TAG_A, TAG_B = "\x01", "\x02"
 IND1, IND0 = "\x03", "\x04"          # continuation indent / base indent of the statement
 OPS = ["Select", "Where", "SelectMany"]
+# the parameter the callable is bound to in func_adl/object_stream.py (a lambda may be passed by that keyword)
+REAL_KW = {"Select": "f", "Where": "filter", "SelectMany": "func"}
+# keyword names the recording fake stream also accepts: the other operators' parameter names, names that
+# coincide with method names, short names that are substrings of `lambda`/`def`
+FAKE_KW = ["f", "filter", "func", "Select", "Where", "SelectMany", "fn", "lam", "de", "a", "e"]
 # identifiers that are substrings / superstrings of the keywords the scanner looks for ("lambda", "def"):
 # used as dataset variables, helper names, attribute names, attribute hops and parameter names
 DS_NAMES = ["a", "b", "d", "l", "m", "am", "da", "e", "f"]                  # all bound to the dataset
@@ -133,11 +138,20 @@ class LayoutGen:
             s = "(%s) != 7" % s
         return s
 
-    def lam(self, m: int, args: List[str], op: str, ml: bool, depth: int = 0) -> str:
+    def lam(self, m: int, args: List[str], op: str, ml: bool, depth: int = 0, kw: Optional[str] = None) -> str:
         sig = ", ".join(args)
         b = self.body(args[0], m, op, ml, depth)
         sp = "" if b.startswith("\n") else " "
-        return "%s%d%slambda %s:%s%s" % (TAG_A, m, TAG_B, sig, sp, b)
+        pre = "" if kw is None else kw + self.r.choice(["=", "=", "=", " = "])
+        return "%s%s%d%slambda %s:%s%s" % (pre, TAG_A, m, TAG_B, sig, sp, b)
+
+    def kwname(self, op: str, p: float = .2) -> Optional[str]:
+        """None = the lambda is passed by position; otherwise the keyword it is passed by (`.Select(f=lambda ...)`)"""
+        if self.r.random() >= p:
+            return None
+        if self.real or self.r.random() < .6:
+            return REAL_KW[op]
+        return self.r.choice(FAKE_KW)
 
     # -- chains of calls
     def chain(self, recv: str = "ds", style: Optional[str] = None, lhs: str = "r = ") -> str:
@@ -157,6 +171,8 @@ class LayoutGen:
                 args.append(r.choice(["b", "c"]))
             calls.append([op, args])
         sigs = [(op, tuple(a)) for op, a in calls]
+        # some calls pass their lambda by keyword; the method and parameter names alone tell calls apart
+        kws = [self.kwname(op) for op, _ in calls]
 
         def uniq(i, among):
             return sum(1 for j in among if sigs[j] == sigs[i]) == 1
@@ -166,13 +182,13 @@ class LayoutGen:
             out += recv
             for i, (op, args) in enumerate(calls):
                 m = self.marker("lambda", op, args, True, uniq(i, range(n)), "line")
-                out += "%s.%s%s(%s)" % (self.hop() if i else "", op, r.choice(["", "", " "]), self.lam(m, args, op, False))
+                out += "%s.%s%s(%s)" % (self.hop() if i else "", op, r.choice(["", "", " "]), self.lam(m, args, op, False, kw=kws[i]))
         elif style == "black":
             out += "(\n%s%s\n" % (IND1, recv)
             for i, (op, args) in enumerate(calls):
                 m = self.marker("lambda", op, args, True, True, "black")
                 c = r.choice(["", "", "  # noqa", "  # lambda e: e, )"])
-                out += "%s.%s(%s)%s\n" % (IND1, op, self.lam(m, args, op, True), c)
+                out += "%s.%s(%s)%s\n" % (IND1, op, self.lam(m, args, op, True, kw=kws[i]), c)
             out += "%s)" % IND0
         elif style == "wrapped":
             out += recv
@@ -180,43 +196,46 @@ class LayoutGen:
                 m = self.marker("lambda", op, args, True, True, "wrapped")
                 c = r.choice(["", "", "  # noqa", "  # ( lambda"])
                 extra = r.choice(["", "", ",", ", 50"]) if not self.real else r.choice(["", ""])
-                out += ".%s(%s\n%s%s%s\n%s)" % (op, c, IND1, self.lam(m, args, op, True), extra, IND0)
+                if kws[i] is not None and extra == ", 50":      # no positional argument after a keyword
+                    extra = ", known_types={}"
+                out += ".%s(%s\n%s%s%s\n%s)" % (op, c, IND1, self.lam(m, args, op, True, kw=kws[i]), extra, IND0)
         elif style == "inline_then_wrapped":
             k = r.randrange(1, n + 1) if n > 1 else 1
             out += recv
             for i, (op, args) in enumerate(calls):
                 if i < k - 1 or n == 1:
                     m = self.marker("lambda", op, args, True, uniq(i, range(k - 1 if n > 1 else 1)), "inline")
-                    out += ".%s(%s)" % (op, self.lam(m, args, op, False))
+                    out += ".%s(%s)" % (op, self.lam(m, args, op, False, kw=kws[i]))
                 else:
                     m = self.marker("lambda", op, args, True, True, "wrapped_tail")
-                    out += ".%s(\n%s%s\n%s)" % (op, IND1, self.lam(m, args, op, True), IND0)
+                    out += ".%s(\n%s%s\n%s)" % (op, IND1, self.lam(m, args, op, True, kw=kws[i]), IND0)
         elif style == "backslash":
             out += recv
             for i, (op, args) in enumerate(calls):
                 m = self.marker("lambda", op, args, True, False, "backslash")
                 self.cases[m].row_group = id(calls)
-                out += "%s.%s(%s)" % (" \\\n" + IND1 if i and r.random() < .7 else "", op, self.lam(m, args, op, False))
+                out += "%s.%s(%s)" % (" \\\n" + IND1 if i and r.random() < .7 else "", op, self.lam(m, args, op, False, kw=kws[i]))
         elif style == "tail":
             # a multi-line first argument, the chain continues on its last line
             out += recv
             for i, (op, args) in enumerate(calls):
                 m = self.marker("lambda", op, args, True, False, "tail")
                 self.cases[m].row_group = id(calls)
-                out += "%s.%s(%s)" % (self.hop() if i else "", op, self.lam(m, args, op, i == 0 or r.random() < .3))
+                out += "%s.%s(%s)" % (self.hop() if i else "", op, self.lam(m, args, op, i == 0 or r.random() < .3, kw=kws[i]))
         else:  # funny: a line break at every legal point with some probability
             out += recv
             for i, (op, args) in enumerate(calls):
                 m = self.marker("lambda", op, args, True, False, "funny")
                 b1 = "\n" + IND1 + " " * r.randrange(0, 5) if r.random() < .4 else ""
                 b2 = "\n" + r.choice([IND0, IND1]) if r.random() < .3 else ""
-                out += "%s.%s(%s%s%s)" % (self.hop() if i else "", op, b1, self.lam(m, args, op, r.random() < .5), b2)
+                out += "%s.%s(%s%s%s)" % (self.hop() if i else "", op, b1, self.lam(m, args, op, r.random() < .5, kw=kws[i]), b2)
         return out
 
     # -- statements that are not plain chains
     def special(self) -> List[str]:
         r = self.r
-        k = r.choice(["assigned", "second_arg", "keyword", "listed", "cond_expr", "tuple", "concat", "comp",
+        k = r.choice(["assigned", "second_arg", "keyword", "keyword", "kw_chain", "kw_chain", "kw_chain", "kw_names",
+                      "listed", "cond_expr", "tuple", "concat", "comp",
                       "semicolon", "helper", "default_arg", "subscript", "eager_nested", "eager_nested",
                       "enclosed", "enclosed", "enclosed", "enclosed"])
         a = self.argname()
@@ -233,7 +252,7 @@ class LayoutGen:
             parts = []
             for i, (op, args) in enumerate(calls):
                 m = self.marker("lambda", op, args, True, sigs.count(sigs[i]) == 1, "enclosed")
-                parts.append("%s%s.%s(%s)" % (self.dsname(), self.hop(.1), op, self.lam(m, args, op, False)))
+                parts.append("%s%s.%s(%s)" % (self.dsname(), self.hop(.1), op, self.lam(m, args, op, False, kw=self.kwname(op, .15))))
             form = r.choice(["call", "call", "call", "tuple", "list", "dict", "kwcall"])
             if form == "call":
                 return ["r = %s(%s)" % (r.choice(HELPER_NAMES), ", ".join(parts))]
@@ -244,8 +263,10 @@ class LayoutGen:
             if form == "dict":
                 return ["r = {%s}" % ", ".join("'%s': %s" % (r.choice(HOP_NAMES), p) for p in parts)]
             return ["r = [%s]" % ", ".join(parts)]
-        if self.real and k in ("second_arg", "keyword", "concat", "helper", "eager_nested"):
+        if self.real and k in ("second_arg", "concat", "helper", "eager_nested"):
             k = "cond_expr"
+        if self.real and k == "kw_names":
+            k = "kw_chain"
         if k == "eager_nested":
             # the body of the outer lambda is executed by `eager`, so the inner lambda really is passed;
             # its signature differs from the enclosing lambda's (never nested in the same signature)
@@ -263,8 +284,32 @@ class LayoutGen:
             m2 = self.marker("lambda", "Select", [a], False, False, "second_arg")
             return ["r = ds.Select(%s, %s)" % (self.lam(m1, [a], "Select", False), self.lam(m2, [a], "Select", False))]
         if k == "keyword":
-            m = self.marker("lambda", "Select", [a], True, False, "keyword")
-            return ["r = ds.Select(f=%s)" % self.lam(m, [a], "Select", False)]
+            # a lambda passed by keyword, alone on its line (or on its own line below the call)
+            op = r.choice(OPS)
+            kw = REAL_KW[op] if self.real or r.random() < .7 else r.choice(FAKE_KW)
+            m = self.marker("lambda", op, [a], True, True, "keyword")
+            if r.random() < .3:
+                return ["r = %s.%s(\n%s%s\n%s)" % (self.dsname(), op, IND1, self.lam(m, [a], op, True, kw=kw), IND0)]
+            return ["r = %s.%s(%s)" % (self.dsname(), op, self.lam(m, [a], op, False, kw=kw))]
+        if k in ("kw_chain", "kw_names"):
+            # keyword lambdas chained with positional ones on one line, same and different method / parameter
+            # names (kw_names: keyword names that coincide with method names - the recording fake stream only)
+            n = r.choice([2, 2, 3])
+            same = r.random() < .5
+            calls = []
+            for i in range(n):
+                op = "Select" if r.random() < .5 else r.choice(OPS)
+                calls.append((op, [a if same else self.argname()]))
+            sigs = [(op, tuple(x)) for op, x in calls]
+            nk = r.randrange(n)                     # at least this one is passed by keyword
+            out = "r = " + self.dsname()
+            for i, (op, args) in enumerate(calls):
+                kw = None
+                if i == nk or r.random() < .4:
+                    kw = REAL_KW[op] if k == "kw_chain" else r.choice(OPS + [o for o, _ in calls])
+                m = self.marker("lambda", op, args, True, sigs.count(sigs[i]) == 1, k)
+                out += "%s.%s(%s)" % (self.hop(.1) if i else "", op, self.lam(m, args, op, False, kw=kw))
+            return [out]
         if k == "listed":
             m1 = self.marker("lambda", "Select", [a], False, False, "listed")
             m2 = self.marker("lambda", "Select", [a], True, False, "listed")
@@ -501,6 +546,7 @@ class S:
         for n in ATTR_NAMES:
             setattr(self, n, self.v)
         self.w = seed % 2
+        self.b = seed * 5 + 1           # `e.b` of the keyword-lambda witnesses (differs from every other attribute)
         self.lst = [seed, seed + 1]
 
     @property
@@ -517,8 +563,19 @@ class S:
         return [self.v + len(a)]
 
 
+def passed_callable(a, k):
+    """the callable handed to an operator: its first positional argument, else its first keyword argument that
+    is a function (`.Select(f=lambda ...)`, `.Where(filter=lambda ...)`, `.SelectMany(func=lambda ...)`)"""
+    if a:
+        return a[0]
+    for v in k.values():
+        if callable(v) and hasattr(v, "__code__"):
+            return v
+    return None
+
+
 class Fake:
-    """records what is passed to Select/Where/SelectMany; never parses"""
+    """records what is passed to Select/Where/SelectMany (by position or by any keyword); never parses"""
 
     def __init__(self, log):
         self.log = log
@@ -527,14 +584,14 @@ class Fake:
         self.log.append((op, f))
         return self
 
-    def Select(self, f=None, *a, **k):
-        return self._rec("Select", f)
+    def Select(self, *a, **k):
+        return self._rec("Select", passed_callable(a, k))
 
-    def Where(self, f=None, *a, **k):
-        return self._rec("Where", f)
+    def Where(self, *a, **k):
+        return self._rec("Where", passed_callable(a, k))
 
-    def SelectMany(self, f=None, *a, **k):
-        return self._rec("SelectMany", f)
+    def SelectMany(self, *a, **k):
+        return self._rec("SelectMany", passed_callable(a, k))
 
     def Concat(self, other):
         return self
@@ -548,7 +605,8 @@ class Fake:
 class Eager(Fake):
     """also executes the callable (as LINQ-to-objects would), so lambdas inside its body get passed"""
 
-    def Select(self, f=None, *a, **k):
+    def Select(self, *a, **k):
+        f = passed_callable(a, k)
         self._rec("Select", f)
         try:
             f(S(1))
@@ -563,23 +621,24 @@ class RealProbe:
     def __init__(self, stream, log):
         self.stream, self.log = stream, log
 
-    def _op(self, op, f):
+    def _op(self, op, a, k):
+        f = passed_callable(a, k)
         try:
-            new = getattr(self.stream, op)(f)
+            new = getattr(self.stream, op)(*a, **k)      # positional or by the real parameter name
             self.log.append((op, f, "ok", new.query_ast.args[1]))
             return RealProbe(new, self.log)
         except Exception as e:  # noqa
             self.log.append((op, f, "exc", type(e).__name__))
             return self
 
-    def Select(self, f):
-        return self._op("Select", f)
+    def Select(self, *a, **k):
+        return self._op("Select", a, k)
 
-    def Where(self, f):
-        return self._op("Where", f)
+    def Where(self, *a, **k):
+        return self._op("Where", a, k)
 
-    def SelectMany(self, f):
-        return self._op("SelectMany", f)
+    def SelectMany(self, *a, **k):
+        return self._op("SelectMany", a, k)
 
     def __getattr__(self, name):
         if name in HOP_NAMES:
